@@ -124,6 +124,7 @@ func runC01(r *hk.Run) {
 		for i := 0; i < pr.n; i++ {
 			runReqCell(r, o, genScenario(prng, pr.p, !r.Quick()))
 		}
+		sweepCells(r, prng, func(sc scenario) { runReqCell(r, o, sc) }, pr.p, pr.p == 1)
 		// tiny bodies of unknown length on methods that usually have none (the one-byte probe of
 		// transferWriter), incl. readers that deliver their last byte together with io.EOF
 		for _, m := range []string{"GET", "DELETE", "PROPFIND", "SEARCH", "POST", "HEAD"} {
@@ -148,6 +149,9 @@ func runC01(r *hk.Run) {
 	runReexecCells(r, rng.Fork())
 	runMarshalCtCells(r, rng.Fork())
 	runH3LossCells(r, rng.Fork())
+
+	// (s) a retry hook changes an ingredient of the URL
+	runRetryURLCells(r, rng.Fork())
 
 	// (r) multipart uploads: reader read sizes; a retry hook that changes the form
 	runMultipartCells(r, rng.Fork())
